@@ -1,8 +1,8 @@
 SPECIFICATION Spec
 CONSTANTS
   Parties <- P3
-  Byz <- B1
+  Byz <- B0
   Payloads <- Pay2
   ByzDigests <- DAll
   AllowOmit = TRUE
-INVARIANTS Agreement Validity Consistency
+INVARIANTS Agreement Validity Consistency PrintBehaviour
